@@ -133,5 +133,5 @@ def obligations(tier):
     else:
         for i in range(len(ELEMENTS)):
             obs.append(Ob(f'api_3_{i}', 'S', ob_api, f'three-element descriptions starting with {ELEMENTS[i][0]!r}', functions=S, weight=9, timeout=7000,
-                          params={'n': 3, 'first': i, 'cap': 6500, 'pool': (0, 1, 2, 4, 6, 8, 9, 13)}))
+                          params={'n': 3, 'first': i, 'cap': 6500}))
     return obs
